@@ -2,15 +2,15 @@
 import logging
 from fractions import Fraction
 
-from vlib.obs import S, Err, guarded, gz, gzlist, gstr, glist, gopt, E_OVERFLOW
+from vlib.obs import S, Err, Abort, guarded, gz, gzlist, gstr, glist, gopt, E_OVERFLOW
 
 PROP = "C20"
-ANCHORS = [('canopen.variable', 'Variable.phys'), ('canopen.variable', 'Variable.desc'), ('canopen.variable', 'Variable.bits'), ('canopen.variable', 'Variable.raw'), ('canopen.variable', 'Bits'), ('canopen.variable', 'Variable.read'), ('canopen.variable', 'Variable.write'), ('canopen.objectdictionary', 'ODVariable.encode_phys'), ('canopen.objectdictionary', 'ODVariable.decode_phys'), ('canopen.objectdictionary', 'ODVariable.encode_desc'), ('canopen.objectdictionary', 'ODVariable.decode_desc'), ('canopen.objectdictionary', 'ODVariable.encode_bits'), ('canopen.objectdictionary', 'ODVariable.decode_bits'), ('canopen.objectdictionary', 'ODVariable.add_value_description'), ('canopen.objectdictionary', 'ODVariable.add_bit_definition')]
+ANCHORS = [('canopen.variable', 'Variable.phys'), ('canopen.variable', 'Variable.desc'), ('canopen.variable', 'Variable.bits'), ('canopen.variable', 'Variable.raw'), ('canopen.variable', 'Bits'), ('canopen.objectdictionary', 'ODArray.__getitem__'), ('canopen.variable', 'Variable.read'), ('canopen.variable', 'Variable.write'), ('canopen.objectdictionary', 'ODVariable.encode_phys'), ('canopen.objectdictionary', 'ODVariable.decode_phys'), ('canopen.objectdictionary', 'ODVariable.encode_desc'), ('canopen.objectdictionary', 'ODVariable.decode_desc'), ('canopen.objectdictionary', 'ODVariable.encode_bits'), ('canopen.objectdictionary', 'ODVariable.decode_bits'), ('canopen.objectdictionary', 'ODVariable.add_value_description'), ('canopen.objectdictionary', 'ODVariable.add_bit_definition')]
 MODEL_VO = ["theories/Model/Codec.vo", "theories/Model/Views.vo"]
 COQ_IMPORTS = "From CV Require Import Model.Codec Model.Views."
 COQ_RUN = "run_views"
 COQ_CASE_TYPE = "views_case"
-RULE = ("cases = operation lists (set/get raw, phys, desc, bits[key]) on an integer variable behind a plain byte store, "
+RULE = ("(variables: plain VAR objects and members of arrays declaring only sub 0 and sub 1; stores that refuse reads) cases = operation lists (set/get raw, phys, desc, bits[key]) on an integer variable behind a plain byte store, "
         "an SDO variable (RemoteNode against LocalNode on a synchronous bus) or a PDO variable (PdoMap.add_variable, "
         "byte-aligned, with neighbours), observed after every step: returned value / exception class and the bytes of the "
         "whole buffer; plus direct calls of encode/decode_bits, _desc, _phys on the dictionary object. Every contiguous "
@@ -164,8 +164,31 @@ def make_od(c, index=0x2000):
     return v
 
 
+def _place(c, odv):
+    """where the object lives: a plain VAR at 0x2000 sub 0, or (key "member": sub) a member of an ARRAY 0x2000 that
+    declares only sub 0 and sub 1 - the object then is the template (sub 1) or generated from it (sub >= 2).
+    returns (dictionary entry to add, ODVariable under test, subindex)"""
+    sub = c.get("member")
+    if sub is None:
+        return odv, odv, 0
+    from canopen.objectdictionary import ODArray, ODVariable
+    arr = ODArray("arr", 0x2000)
+    n = ODVariable("count", 0x2000, 0)
+    n.data_type = U8
+    arr.add_member(n)
+    odv.name, odv.subindex = "item", 1
+    arr.add_member(odv)
+    return arr, arr[sub], sub
+
+
+ABORT_WRITE_ONLY = 0x06010001
+
+
 def _mem_store(c, odv):
     import canopen.variable
+    from canopen.sdo.exceptions import SdoAbortedError
+    entry, member, sub = _place(c, odv)
+    rfail = bool(c.get("rfail"))
 
     class MemVar(canopen.variable.Variable):
         def __init__(self, od, data):
@@ -173,12 +196,14 @@ def _mem_store(c, odv):
             self._d = bytes(data)
 
         def get_data(self):
+            if rfail:                      # a store that takes writes but refuses reads
+                raise SdoAbortedError(ABORT_WRITE_ONLY)
             return self._d
 
         def set_data(self, data):
             self._d = bytes(data)
 
-    var = MemVar(odv, bytes(c["cur"]))
+    var = MemVar(member, bytes(c["cur"]))
 
     def poke(bs, how):
         if how % 2:
@@ -195,31 +220,38 @@ def _sdo_store(c, odv):
         def send_message(self, can_id, data, remote=False):
             self.notify(can_id, bytearray(data), 0.0)
 
+    entry, member, sub = _place(c, odv)
+    if c.get("rfail"):
+        odv.access_type = "wo"            # the device refuses uploads with 0x06010001, downloads work
     od = canopen.ObjectDictionary()
-    od.add_object(odv)
+    od.add_object(entry)
     net = Net()
     loc = canopen.LocalNode(1, od)
     rem = canopen.RemoteNode(1, od)
     loc.associate_network(net)
     rem.associate_network(net)
     rem.sdo.RESPONSE_TIMEOUT = 0.01
-    loc.set_data(0x2000, 0, bytes(c["cur"]))
+    loc.set_data(0x2000, sub, bytes(c["cur"]))
+
+    def acc(node):
+        return node.sdo[0x2000] if c.get("member") is None else node.sdo[0x2000][sub]
 
     def poke(bs, how):
         if how % 3 == 0:
-            loc.set_data(0x2000, 0, bytes(bs))                 # the device changes its object
+            loc.set_data(0x2000, sub, bytes(bs))               # the device changes its object
         elif how % 3 == 1:
-            loc.sdo[0x2000].data = bytes(bs)                   # ... through its own accessor
+            acc(loc).data = bytes(bs)                          # ... through its own accessor
         else:
-            rem.sdo[0x2000].data = bytes(bs)                   # a second accessor of the master downloads it
-    return rem.sdo[0x2000], (lambda: bytes(loc.get_data(0x2000, 0))), poke
+            acc(rem).data = bytes(bs)                          # a second accessor of the master downloads it
+    return acc(rem), (lambda: bytes(loc.get_data(0x2000, sub))), poke
 
 
 def _pdo_store(c, odv):
     import canopen
     from canopen.objectdictionary import ODVariable
+    entry, member, sub = _place(c, odv)
     od = canopen.ObjectDictionary()
-    od.add_object(odv)
+    od.add_object(entry)
     n_pre, n_post = len(c["pre"]), len(c["post"])
     for k in range(n_pre + n_post):
         nb = ODVariable(f"n{k}", 0x2100 + k, 0)
@@ -228,7 +260,7 @@ def _pdo_store(c, odv):
     rem = canopen.RemoteNode(1, od)
     m = canopen.pdo.PdoMap(rem.pdo, None, None)
     pre = [m.add_variable(0x2100 + k) for k in range(n_pre)]
-    var = m.add_variable(0x2000)
+    var = m.add_variable(0x2000, sub)
     post = [m.add_variable(0x2100 + n_pre + k) for k in range(n_post)]
     for pv, b in zip(pre + post, list(c["pre"]) + list(c["post"])):
         pv.raw = b
@@ -538,6 +570,12 @@ def oracle(c, o):
         elif op[0] == "read":
             op = [FMT_GETTER[op[1]]] if op[1] in FMT_GETTER else ["noop"]
         kind = op[0]
+        if c.get("rfail") and isinstance(res, (Err, Abort)) and (kind.startswith("get") or kind in ("set_bits", "held_bits")):
+            # the store refuses reads: a getter, and the read-modify-write of a bit field, may only fail - and then
+            # must not have written anything; if they answer instead, the answer is judged like any other below
+            if nbuf != buf:
+                return ("failed_read_wrote", f"{what}: {res!r} but the buffer changed {buf.hex()} -> {nbuf.hex()}")
+            continue
         if kind.startswith("get") and nbuf != buf:
             return ("read_changed_store", f"{what}: buffer {buf.hex()} -> {nbuf.hex()}")
         if len(nbuf) != len(buf) or nbuf[:len(pre)] != pre or nbuf[len(pre) + n:] != post:
@@ -659,7 +697,7 @@ def coq_case(c):
         return (f"VPhysOd {gz(c['dt'])} {gz(c['f'][0])} {gz(c['f'][1])} {gz(c['v'][0])} {gz(c['v'][1])} {gz(c['raw'])}")
     if k == "ops":
         f = c.get("f", [1, 1, 1])
-        return (f"VOps {gz(c['dt'])} {gz(f[0])} {gz(f[1])} {gpairs_zs(c.get('descs', []))} {gdefs(c.get('defs', []))} "
+        return (f"{'VOpsWo' if c.get('rfail') else 'VOps'} {gz(c['dt'])} {gz(f[0])} {gz(f[1])} {gpairs_zs(c.get('descs', []))} {gdefs(c.get('defs', []))} "
                 f"{gzlist(c.get('pre', []))} {gzlist(c['cur'])} {gzlist(c.get('post', []))} "
                 f"{glist([gop(op) for op in c['ops']])}")
     raise ValueError(k)
@@ -1066,8 +1104,25 @@ def gen_cases(rng, tier):
             j += 1
             if j % 2 == 0:
                 c["ops"] = via_methods(rng, c["ops"], 1.0 if j % 4 == 0 else 0.5)
+    # every third history runs on a member of an array that declares only sub 0 and sub 1 (the object is generated from
+    # the sub-1 template: same factor, descriptions, bit definitions, type - same expected results); every sixth
+    # history on a plain / SDO variable runs behind a store that refuses reads (write-only object, abort 0x06010001)
+    j = k = 0
+    for c in cases:
+        if c["kind"] != "ops":
+            continue
+        j += 1
+        if j % 3 == 0:
+            c["member"] = rng.choice([2, 2, 3, 7, 0x20, 0xFE, 0xFF, 1])
+        if c["store"] in ("mem", "sdo"):
+            k += 1
+            if k % 6 == 0:
+                c["rfail"] = 1
     if tier == "thorough":
         sweeps = gen_sweeps(rng)
+        for n, c in enumerate(sweeps):
+            if n % 3 == 1:
+                c["member"] = rng.choice([2, 5, 0xFF])
         k = 0
         for c in sweeps:
             if c["kind"] == "phys_sweep":
